@@ -498,21 +498,38 @@ open Gen.C03 in
 /-- step 1 of MergeWithTL2: `if IsSetCounterEq1 { Counter = 1 }` -/
 def tlCounter (t : TLV) : Int := if bit t.mask bitCounterEq1 then 4 else t.counter
 
+/-- step 2 of MergeWithTL2, ONE function for the three parallel blocks (max host, min host, max-count host):
+    neither `*_host_tag` nor `*_host_stag` present → `dflt`; present but empty (id 0 and `probe` empty) → the sending agent's
+    `host` when `subst` (min / max-count: "explicitly empty, agent had no host for it while it had one for max");
+    otherwise the host as sent. `probe` is the string the emptiness test reads — the block's own `*_host_stag`. -/
+def restoreHost (subst setI setS : Bool) (i : Int) (s probe : Bytes) (dflt host : Tag) : Tag :=
+  if !setI && !setS then dflt
+  else if subst && i == 0 && probe.isEmpty then host
+  else ⟨i, s⟩
+
+/-- `.repo`: the code; `.minSlip`: the emptiness test of the MIN block reads `MaxHostStag` (one-token slip between the
+    parallel blocks) -/
+inductive HostV | repo | minSlip
+deriving DecidableEq, Repr
+
 open Gen.C03 in
+/-- max host: absent → the sending agent's host (no substitution of an explicitly empty one) -/
 def tlMaxHost (t : TLV) (host : Tag) : Tag :=
-  if !bit t.mask bitMaxHostTag && !bit t.mask bitMaxHostStag then host else ⟨t.maxHostTag, t.maxHostStag⟩
+  restoreHost false (bit t.mask bitMaxHostTag) (bit t.mask bitMaxHostStag) t.maxHostTag t.maxHostStag t.maxHostStag host host
 
 open Gen.C03 in
-def tlMinHost (t : TLV) (host : Tag) : Tag :=
-  if !bit t.mask bitMinHostTag && !bit t.mask bitMinHostStag then tlMaxHost t host
-  else if t.minHostTag == 0 && t.minHostStag.isEmpty then host
-  else ⟨t.minHostTag, t.minHostStag⟩
+/-- min host: absent → the (restored) max host -/
+def tlMinHostV (v : HostV) (t : TLV) (host : Tag) : Tag :=
+  restoreHost true (bit t.mask bitMinHostTag) (bit t.mask bitMinHostStag) t.minHostTag t.minHostStag
+    (match v with | .repo => t.minHostStag | .minSlip => t.maxHostStag) (tlMaxHost t host) host
+
+def tlMinHost (t : TLV) (host : Tag) : Tag := tlMinHostV .repo t host
 
 open Gen.C03 in
+/-- max-count host: absent → the (restored) max host -/
 def tlCntHost (t : TLV) (host : Tag) : Tag :=
-  if !bit t.mask bitCntHostTag && !bit t.mask bitCntHostStag then tlMaxHost t host
-  else if t.cntHostTag == 0 && t.cntHostStag.isEmpty then host
-  else ⟨t.cntHostTag, t.cntHostStag⟩
+  restoreHost true (bit t.mask bitCntHostTag) (bit t.mask bitCntHostStag) t.cntHostTag t.cntHostStag t.cntHostStag
+    (tlMaxHost t host) host
 
 open Gen.C03 in
 /-- the compact form: without value_max the aggregator restores max, sum and sum of squares from min and counter -/
